@@ -458,6 +458,14 @@ func (m *objectCacheStorageMiddleware) AppendObject(ctx context.Context, bucketN
 	return result, nil
 }
 
+func (m *objectCacheStorageMiddleware) TransitionObjectStorageClass(ctx context.Context, bucketName storage.BucketName, key storage.ObjectKey, targetStorageClass string, opts *storage.TransitionObjectStorageClassOptions) error {
+	// The cached head entry carries the storage class and Last-Modified, both of
+	// which a transition changes.
+	err := m.Next.TransitionObjectStorageClass(ctx, bucketName, key, targetStorageClass, opts)
+	m.invalidateObjectCaches(ctx, bucketName, key)
+	return err
+}
+
 func (m *objectCacheStorageMiddleware) DeleteObject(ctx context.Context, bucketName storage.BucketName, key storage.ObjectKey, opts *storage.DeleteObjectOptions) (*storage.DeleteObjectResult, error) {
 	result, err := m.Next.DeleteObject(ctx, bucketName, key, opts)
 	if err != nil {
